@@ -424,7 +424,8 @@ IdentifyOne(c, e, j) ==
 
 Reverse2(s) == [i \in 1..Len(s) |-> s[Len(s) + 1 - i]]
 
-Startup(c, e0, ord) ==
+(* ...Pre: the call up to (not including) process_signals; the queue is left for HandleOne *)
+StartupPre(c, e0, ord) ==
   IF e0.phase # "NotStarted" THEN [e |-> e0, res |-> "api"]
   ELSE
   LET leafy == LeafySet(c)
@@ -437,16 +438,18 @@ Startup(c, e0, ord) ==
                   e1, Reverse2(ord.topo))
       roots == SelectSeq(ord.nodes, LAMBDA j : ord.up[j] = <<>>)
       e3 == [e2 EXCEPT !.sigq = [i \in 1..Len(roots) |-> <<"ConsiderJob", roots[i]>>]]
-      e4 == Latch(c, Quiesce(c, e3))
-  IN [e |-> e4, res |-> IF e4.err = "" THEN "ok" ELSE "dead"]
+  IN [e |-> e3, res |-> "ok"]
 
 (***************************************************************************)
 (* driver calls.  Each returns [e, res] with res in                        *)
 (* "ok" | "api" | "changed" | "dead" (internal error or panic).            *)
 (***************************************************************************)
 Begin(e) == [e EXCEPT !.depth = 0, !.log = <<>>]
-Finish(c, e, okres) ==
-  LET q == Latch(c, Quiesce(c, e)) IN [e |-> q, res |-> IF q.err = "" THEN okres ELSE "dead"]
+(* run the queue to quiescence: the rest of the call *)
+Finish(c, p) ==
+  IF p.res = "api" THEN p
+  ELSE LET q == Latch(c, Quiesce(c, p.e)) IN [e |-> q, res |-> IF q.err = "" THEN p.res ELSE "dead"]
+Startup(c, e0, ord) == Finish(c, StartupPre(c, e0, ord))
 
 NowRunning(c, e, j) ==
   LET st == e.jst[j]
@@ -460,25 +463,30 @@ NowRunning(c, e, j) ==
      ELSE [e |-> Latch(c, [SetSt(Begin(e), j, to) EXCEPT !.started = @ \cup {j}, !.ready = @ \ {j}]),
            res |-> "ok"]
 
-FinishedSuccess(c, e, j, val) ==
+FinishedSuccessPre(c, e, j, val) ==
   IF e.jst[j] \notin RunningStates THEN [e |-> e, res |-> "api"]
   ELSE IF e.jst[j] = "E:Running(Validated)" /\ OKey(j) \in DOMAIN c.hist0
           /\ Altered(c, "", c.hist0[OKey(j)], val)
-       THEN Finish(c, [Begin(e) EXCEPT !.sigq = <<<<"JobFinishedFailure", j>>>>], "changed")
-       ELSE Finish(c, [Begin(e) EXCEPT !.hout = Put(@, j, val),
-                                       !.sigq = <<<<"JobFinishedSuccess", j>>>>], "ok")
+       THEN [e |-> [Begin(e) EXCEPT !.sigq = <<<<"JobFinishedFailure", j>>>>], res |-> "changed"]
+       ELSE [e |-> [Begin(e) EXCEPT !.hout = Put(@, j, val),
+                                    !.sigq = <<<<"JobFinishedSuccess", j>>>>], res |-> "ok"]
+FinishedSuccess(c, e, j, val) == Finish(c, FinishedSuccessPre(c, e, j, val))
 
-FinishedFailure(c, e, j) ==
+FinishedFailurePre(c, e, j) ==
   IF e.jst[j] \notin RunningStates THEN [e |-> e, res |-> "api"]
-  ELSE Finish(c, [Begin(e) EXCEPT !.sigq = <<<<"JobFinishedFailure", j>>>>], "ok")
+  ELSE [e |-> [Begin(e) EXCEPT !.sigq = <<<<"JobFinishedFailure", j>>>>], res |-> "ok"]
+FinishedFailure(c, e, j) == Finish(c, FinishedFailurePre(c, e, j))
 
-CleanupDone(c, e, j) ==
+CleanupDonePre(c, e, j) ==
   IF e.jst[j] # "E:FinishedSuccessReadyForCleanup" THEN [e |-> e, res |-> "api"]
-  ELSE Finish(c, [Begin(e) EXCEPT !.sigq = <<<<"JobCleanedUp", j>>>>], "ok")
+  ELSE [e |-> [Begin(e) EXCEPT !.sigq = <<<<"JobCleanedUp", j>>>>], res |-> "ok"]
+CleanupDone(c, e, j) == Finish(c, CleanupDonePre(c, e, j))
 
-AbortRemaining(c, e) ==
+AbortRemainingPre(c, e) ==
   LET todo == SelectSeq(e.ord.jobs, LAMBDA j : ~IsFin(e, j))
-  IN Finish(c, [Begin(e) EXCEPT !.sigq = [i \in 1..Len(todo) |-> <<"JobAborted", todo[i]>>]], "ok")
+  IN [e |-> [Begin(e) EXCEPT !.sigq = [i \in 1..Len(todo) |-> <<"JobAborted", todo[i]>>]],
+      res |-> "ok"]
+AbortRemaining(c, e) == Finish(c, AbortRemainingPre(c, e))
 
 (***************************************************************************)
 (* new_history: [res, h]                                                   *)
